@@ -65,7 +65,9 @@ COMPONENTS = {"real": ["_dilation.connection (_Framer/_Record/"
 IDS = (0, 1, 2 ** 31, 2 ** 32 - 1)
 PAYLOADS = (0, 1, 65509, 65510, 65511, 65512, 131028, 131029, 131037, 131038,
             131039, 200000)
-NAMES = ("p", "proto-ü", "名前", "x" * 300, "")
+NAMES = ("p", "proto-ü", "名前", "x" * 300, "",
+         # not in Unicode NFC form: field values travel as they are
+         "cafe\u0301", "\u212bngstrom", "\u1112\u1161\u11ab", "\ufb01le")
 
 
 @implementer(IDilationManager)
@@ -211,7 +213,7 @@ def gen_record(tape, i):
     return Ack(tape.pick(IDS, "sq"))
 
 
-FIXED = [Ping(b"\x00\x01\x02\x03"), Open(0, 1, "proto-ü"),
+FIXED = [Ping(b"\x00\x01\x02\x03"), Open(0, 1, "proto-u\u0308"),
          Data(1, 1, b"d" * 65510), Data(2 ** 32 - 1, 2 ** 31, b""),
          Ack(2 ** 32 - 1), Data(3, 1, b"e" * 131029), Close(4, 1),
          Pong(b"\xff\xff\xff\xff")]
